@@ -40,16 +40,10 @@ let step _ cs os =
   let case = { ClientMux.c_ws = ws; c_n = n_of_hex (get f "n"); c_sched = sched } in
   let has_fwd = Stdlib.List.exists (fun st -> match st with ClientMux.Forward _ | ClientMux.FwdNotify _ -> true | _ -> false) sched in
   if has_fwd && get f "k" <> "async" then failwith "forward steps on a client without forward_message";
-  (* expect=reuse: a hand-written replay of an id-reuse schedule (outside all_fresh, where the
-     model itself violates the property: C04_id_reuse_refuted); every generated case must be wf *)
-  let reuse = (get_opt f "expect" = Some "reuse") in
-  if not reuse && not (ClientMux.c04_wf case) then failwith "case is not well-formed (generator)";
-  if reuse && not (ClientMux.all_enabled ws ClientMux.mux0 sched) then failwith "reuse case: a step is not enabled";
+  if not (ClientMux.c04_wf case) then failwith "case is not well-formed (generator)";
   let out = ref [] in
   let model = ClientMux.model_C04 case in
-  if not (ClientMux.ok_C04 case model) then
-    out := (if reuse then "BAD\tside=model\tclause=ok_C04(model)=false[id-reuse schedule, outside all_fresh]"
-            else "BAD\tside=model\tclause=ok_C04(model)=false") :: !out;
+  if not (ClientMux.ok_C04 case model) then out := "BAD\tside=model\tclause=ok_C04(model)=false" :: !out;
   (match get_opt o "crash" with
    | Some c -> out := ("BAD\tside=impl\tclause=crash:" ^ c) :: !out
    | None ->
